@@ -256,3 +256,29 @@ def mutate(rng, data, kinds=None):
     elif kind == 'zero-tail':
         data += b'\x00' * rng.choice([1, 2, 3, 4])
     return kind, bytes(data)
+
+
+def enc_case(T, v, codec, defMode=True, chunk=0):
+    """Generic, property-independent case descriptor for an encoder-side observation."""
+    return ('enc', T, v, codec, defMode, chunk)
+
+
+def replay_enc(prop, case):
+    """Replay an ('enc', ...) case: run the named encoder under the emulation oracle."""
+    from pyasn1.codec.ber import encoder as be
+    from pyasn1.codec.cer import encoder as ce
+    from pyasn1.codec.der import encoder as de
+    res = H.Result(prop)
+    _, T, v, codec, defMode, chunk = case
+    bt = try_build(res, T, v)
+    if bt is None:
+        return res
+    enc, kw = {'BER': (be.encode, dict(defMode=defMode, maxChunkSize=chunk)), 'CER': (ce.encode, {}),
+               'DER': (de.encode, {})}[codec]
+    feats = set(bt.feats)
+    if codec == 'BER' and not defMode:
+        feats.add('indefinite')
+    encode_monitored(res, codec.lower(), enc, bt.obj, kw, T, v, codec,
+                     {'BER': defMode, 'CER': False, 'DER': True}[codec], {'BER': chunk, 'CER': 1000, 'DER': 0}[codec],
+                     feats, case)
+    return res
